@@ -573,10 +573,76 @@ def check_dt(ctx):
            'set_dt calls: %s' % [src(c) for c in sets])
 
 
+def check_constructor_rules(ctx):
+    """The rule tuples given to a model's constructor reach create_rule with their type, attributes and frequency: the constructors are
+    evaluated (templates.StrExec) on a sample rule list - 2-tuples and 3-tuples whose attributes and frequencies are named holes."""
+    from ..templates import StrExec, Hole, UNKNOWN
+    sample = [['assignment', Hole('A0')], ['additive', Hole('A1'), Hole('F1')], ['LinearVolume', Hole('A2')], ['ode', Hole('A3'), Hole('F3')],
+              ['division', Hole('A4'), Hole('F4')], ['assignment', Hole('A5'), Hole('F5')]]
+    lineage_words = ('Volume', 'volume', 'Death', 'death', 'Division', 'division')
+    plain = [r for r in sample if not any(w in r[0] for w in lineage_words)]
+
+    def run(f, on_call):
+        names = [a.arg for a in f.args.args[1:]]
+        dfl = f.args.defaults
+        env = {}
+        ex = StrExec(env, tracked=set(), call_hook=on_call)
+        for a, dv in zip(f.args.args[len(f.args.args) - len(dfl):], dfl):
+            env[a.arg] = ex.ev(dv)
+        env['rules'] = [list(r) for r in sample]
+        env['initialize_model'] = False
+        env['input_printout'] = False
+        ex.env = env
+        ex.frozen = set(env)
+        ex.run(f.body)
+        return ex
+
+    # Model.__init__ -> create_rule
+    f = ctx.fn('types:Model.__init__')
+    dc, cr = ctx.prog.resolve_method('Model', 'create_rule')
+    cr_params = [a.arg for a in cr.args.args[1:]]
+    default_freq = None
+    for a, dv in zip(cr.args.args[len(cr.args.args) - len(cr.args.defaults):], cr.args.defaults):
+        if a.arg == 'rule_frequency' and isinstance(dv, ast.Constant):
+            default_freq = dv.value
+    got = []
+
+    def hook(n, ex):
+        if isinstance(n.func, ast.Attribute) and n.func.attr == 'create_rule' and src(n.func.value) == 'self':
+            vals = dict(zip(cr_params, [ex.ev(a) for a in n.args]))
+            for kw in n.keywords:
+                if kw.arg is not None:
+                    vals[kw.arg] = ex.ev(kw.value)
+            got.append([vals.get('rule_type', UNKNOWN), vals.get('rule_attributes', UNKNOWN), vals.get('rule_frequency', default_freq)])
+        return None
+    ex = run(f, hook)
+    want = [[r[0], r[1], r[2] if len(r) == 3 else default_freq] for r in sample]
+    ok = not ex.aborted and got == want and default_freq == 'repeated'
+    ctx.ob('R9.8-constructor-rules', 'Model.__init__', ok, ctx.loc('types', f),
+           "every rule tuple of the constructor reaches create_rule in order with its type, attributes and frequency ('repeated' when none is given)",
+           '' if ok else 'for %r create_rule is called with %r%s' % (sample, got, ' (%s)' % ex.aborted if ex.aborted else ''))
+    # LineageModel.__init__ -> Model.__init__(rules = ...)
+    f = ctx.fn('lineage:LineageModel.__init__')
+    fwd = []
+
+    def hook2(n, ex):
+        if isinstance(n.func, ast.Attribute) and n.func.attr == '__init__' and isinstance(n.func.value, ast.Call) and src(n.func.value.func) == 'super':
+            for kw in n.keywords:
+                if kw.arg == 'rules':
+                    fwd.append(ex.ev(kw.value))
+        return None
+    ex = run(f, hook2)
+    ok = not ex.aborted and len(fwd) == 1 and fwd[0] == plain
+    ctx.ob('R9.8-constructor-rules', 'LineageModel.__init__', ok, ctx.loc('lineage', f),
+           'the rules that are not lineage rules are handed to the Model constructor unchanged (type, attributes and frequency), in order',
+           '' if ok else 'for %r the Model constructor gets rules = %r%s' % (sample, fwd, ' (%s)' % ex.aborted if ex.aborted else ''))
+
+
 def check(ctx):
     prog = ctx.prog
     for m in ('types', 'types.pxd', 'simulator', 'simulator.pxd', 'lineage', 'lineage.pxd'):
         prog.mod(m)
+    check_constructor_rules(ctx)
     check_predicate(ctx)
     check_operations(ctx)
     check_rule_slots(ctx)
